@@ -296,6 +296,219 @@ def generic_state_rule(prop, project, result):
                             "copy(), survives transforms / masking / retargeting and is never invalidated, so later answers describe the object as it was" % (c.name, lazy[0], attr))
 
 
+def aliasing_profile(project, f, fresh_helpers=()):
+    """(whole-buffer stores, calls with copy=False, explicit copies) of a function; explicit copies made by helper functions
+    that did not exist on the confirmed tree count for their caller (an extracted helper must not hide a copy)"""
+    import ast as _ast
+    from .astutil import Defs, norm
+    d = Defs(f.node)
+    inplace, nocopy, copies = [], [], []
+
+    def whole(sl):
+        if isinstance(sl, _ast.Constant) and sl.value is Ellipsis:
+            return True
+        if isinstance(sl, _ast.Slice) and sl.lower is None and sl.upper is None and sl.step is None:
+            return True
+        if isinstance(sl, _ast.Tuple) and sl.elts and all(whole(x) for x in sl.elts):
+            return True
+        return False
+
+    def default_float_buffer(v):
+        if not isinstance(v, _ast.Name):
+            return False
+        x = d.single(v.id)
+        if isinstance(x, _ast.Call) and isinstance(x.func, _ast.Attribute) and x.func.attr in ("zeros", "empty", "ones", "full") and isinstance(x.func.value, _ast.Name) and x.func.value.id == "np":
+            return not any(kw.arg == "dtype" for kw in x.keywords) and len(x.args) < (3 if x.func.attr == "full" else 2)
+        return False
+
+    for n in _ast.walk(f.node):
+        tg = []
+        if isinstance(n, _ast.Assign):
+            tg = n.targets
+        elif isinstance(n, _ast.AnnAssign):
+            tg = [n.target]
+        for t in tg:
+            if isinstance(t, _ast.Subscript) and whole(t.slice) and not default_float_buffer(t.value):
+                inplace.append(n)
+        if isinstance(n, _ast.Call):
+            for kw in n.keywords:
+                if kw.arg == "copy" and isinstance(kw.value, _ast.Constant) and kw.value.value is False:
+                    nocopy.append(n)
+            fn = n.func
+            if isinstance(fn, _ast.Attribute) and fn.attr in ("copy", "deepcopy") and not (isinstance(fn.value, _ast.Name) and fn.value.id == "np" and not n.args):
+                copies.append(n)
+            elif isinstance(fn, _ast.Attribute) and isinstance(fn.value, _ast.Name) and fn.value.id == "np" and fn.attr in ("copy",) and n.args \
+                    and (isinstance(n.args[0], _ast.Name) or (isinstance(n.args[0], _ast.Attribute) and n.args[0].attr not in ("shape", "n_dims", "size"))) \
+                    and not any(kw.arg == "copy" and isinstance(kw.value, _ast.Constant) and kw.value.value is False for kw in n.keywords):
+                copies.append(n)
+            elif isinstance(fn, _ast.Name) and fn.id == "deepcopy":
+                copies.append(n)
+    extra = 0
+    if fresh_helpers:
+        from .calls import CallCtx
+        from .astutil import calls_in
+        ctx = CallCtx(project, f, f.cls)
+        seen = set()
+        for k in calls_in(f.node, include_nested=True):
+            for t in ctx.resolve_call(k):
+                if t.func.qualname in fresh_helpers and t.func.qualname not in seen:
+                    seen.add(t.func.qualname)
+                    extra += len(aliasing_profile(project, t.func)[2])
+    return inplace, nocopy, copies, extra
+
+
+def generic_alias_rules(prop, project, result):
+    """Cxx.G6: no function of the scope gains a store that overwrites a whole existing buffer (`x[...] = v`, `x[:] = v`): the value is
+    cast to the dtype of the old buffer and written through every alias of it -- rebinding does neither.
+    Cxx.G7: no function of the scope makes fewer explicit copies, or passes copy=False more often, than on the confirmed tree."""
+    table = _scope().get("#alias", {})
+    scope = _scope().get(prop) or {}
+    if not table or not scope:
+        return
+    r6 = result.rule("%s.G6" % prop, "no new whole-buffer overwrite (x[...] = v casts to the old dtype and writes through every alias)")
+    r7 = result.rule("%s.G7" % prop, "no function makes fewer explicit copies or passes copy=False more often than on the confirmed tree")
+    index = {f.qualname: f for f in project.all_functions()}
+    known_fns = set(table.get("#functions", []))
+    fresh = {q for q in index if q not in known_fns}
+    for q in scope:
+        f = index.get(q)
+        ref = table.get(q)
+        if f is None or ref is None:
+            continue
+        r6.instance(f)
+        r7.instance(f)
+        inplace, nocopy, copies, extra = aliasing_profile(project, f, fresh)
+        if len(inplace) > ref[0]:
+            n = inplace[-1]
+            r6.violation(f, n, "%s now overwrites a whole existing buffer in place (`%s`): the new values are cast to the dtype the buffer already had and every other "
+                         "holder of that buffer sees them; the confirmed code bound a new array instead" % (f.short, __import__("ast").unparse(n)[:80]))
+        else:
+            r6.ok()
+        if len(nocopy) > ref[1]:
+            n = nocopy[-1]
+            r7.violation(f, n, "%s passes copy=False at `%s` where the confirmed code let the callee take its own copy: the result now shares storage with the argument" % (f.short, __import__("ast").unparse(n)[:80]))
+        elif len(copies) + extra < ref[2]:
+            r7.violation(f, f.node, "%s makes %d explicit copies, the confirmed code %d: an array or container that was duplicated is now shared with its source" % (f.short, len(copies) + extra, ref[2]))
+        else:
+            r7.ok()
+
+
+_BUILTIN_NOISE = {"len", "isinstance", "range", "print", "int", "float", "str", "list", "tuple", "dict", "set", "type", "getattr", "hasattr", "enumerate", "zip", "super",
+                  "format", "warn", "min", "max", "abs", "sorted", "any", "all", "iter", "next", "repr", "bool", "map", "filter", "sum", "round", "id", "callable"}
+
+
+def _callee_key(call):
+    import ast as _ast
+    fn = call.func
+    if isinstance(fn, _ast.Attribute):
+        return fn.attr
+    if isinstance(fn, _ast.Name):
+        return fn.id
+    return None
+
+
+def control_profile(f):
+    """(callees executed on every normal path from entry to a return,
+        {(parameter, callee): polarity} for calls and raises that run only under a test of a bare parameter)"""
+    import ast as _ast
+    from . import cfg as cfgmod
+    from .astutil import walk_own, stmt_of
+    g = cfgmod.build(f.node)
+    params = set(f.params)
+    sites = {}
+    repeated = set()  # element expressions of comprehensions run zero or more times, like a loop body
+    for n in walk_own(f.node):
+        if isinstance(n, (_ast.ListComp, _ast.SetComp, _ast.GeneratorExp, _ast.DictComp)):
+            parts = ([n.key, n.value] if isinstance(n, _ast.DictComp) else [n.elt]) + [i for gn in n.generators for i in gn.ifs] + [gn.iter for gn in n.generators[1:]]
+            for part in parts:
+                repeated |= {id(x) for x in _ast.walk(part)}
+        elif isinstance(n, (_ast.IfExp,)):
+            for part in (n.body, n.orelse):
+                repeated |= {id(x) for x in _ast.walk(part)}
+        elif isinstance(n, _ast.BoolOp):
+            for part in n.values[1:]:
+                repeated |= {id(x) for x in _ast.walk(part)}
+    optional_sites = {}
+    for n in walk_own(f.node):
+        if isinstance(n, _ast.Call):
+            k = _callee_key(n)
+            if k and k not in _BUILTIN_NOISE:
+                if id(n) in repeated:
+                    optional_sites.setdefault(k, []).append(stmt_of(n))
+                    continue
+                sites.setdefault(k, []).append(stmt_of(n))
+        elif isinstance(n, _ast.Raise):
+            sites.setdefault("raise", []).append(n)
+    must = set()
+    for k, sts in sites.items():
+        if k == "raise":
+            continue
+        try:
+            if g.must_pass(sts, cfgmod.RETURN):
+                must.add(k)
+        except Exception:
+            pass
+    pol = {}
+    for k, sts in sites.items():
+        for st in sts:
+            try:
+                gs = list(g.guards(st))
+            except Exception:
+                continue
+            for t, p_ in gs:
+                while isinstance(t, _ast.UnaryOp) and isinstance(t.op, _ast.Not):
+                    t, p_ = t.operand, not p_
+                key = None
+                if isinstance(t, _ast.Name) and t.id in params:
+                    key = t.id
+                elif isinstance(t, _ast.Compare) and len(t.ops) == 1 and isinstance(t.left, _ast.Name) and t.left.id in params and isinstance(t.comparators[0], _ast.Constant) \
+                        and t.comparators[0].value is None and isinstance(t.ops[0], (_ast.Is, _ast.IsNot)):
+                    key = t.left.id + " is None"
+                    if isinstance(t.ops[0], _ast.IsNot):
+                        p_ = not p_
+                if key is not None:
+                    pol.setdefault((key, k), set()).add(bool(p_))
+    return must, {kk: next(iter(v)) for kk, v in pol.items() if len(v) == 1}, set(sites) | set(optional_sites)
+
+
+def generic_control_rules(prop, project, result):
+    """Cxx.G8: a call (or raise) that ran only when a bare parameter was true still runs under the same polarity of that parameter.
+    Cxx.G9: a call that every normal path of a function went through on the confirmed tree is still on every normal path
+    (a new early return / a new condition around a state update, a verification or a landmark transfer skips it on some path)."""
+    table = _scope().get("#control", {})
+    scope = _scope().get(prop) or {}
+    if not table or not scope:
+        return
+    r8 = result.rule("%s.G8" % prop, "calls guarded by an option still run under the same polarity of that option")
+    r9 = result.rule("%s.G9" % prop, "calls on every normal path of a function on the confirmed tree are still on every normal path")
+    index = {f.qualname: f for f in project.all_functions()}
+    defined = {f.name for f in project.all_functions()} | {c.name for c in project.classes.values()}
+    for q in scope:
+        f = index.get(q)
+        ref = table.get(q)
+        if f is None or ref is None:
+            continue
+        must, pol, present = control_profile(f)
+        r8.instance(f)
+        r9.instance(f)
+        for key, want in ref.get("pol", {}).items():
+            prm, callee = key.split("|", 1)
+            got = pol.get((prm, callee))
+            if got is None or got == want:
+                r8.ok()
+                continue
+            r8.violation(f, f.node, "in %s `%s` %s only when `%s` is %s; on the confirmed tree it was when it is %s: the option now does the opposite of what it says"
+                         % (f.short, callee, "is raised" if callee == "raise" else "is called", prm, "true" if got else "false", "true" if want else "false"))
+        for callee in ref.get("must", []):
+            if callee not in defined:
+                continue  # a library routine: another spelling of it on some path is not this rule's business
+            if callee in must or callee not in present:
+                r9.ok()
+                continue
+            r9.violation(f, f.node, "%s no longer calls `%s` on every path that returns normally: some path (a new early return or a new condition) now skips it, the confirmed code never did"
+                         % (f.short, callee))
+
+
 CACHE_DECORATORS = {"lru_cache", "cache", "cached", "memoize", "memoized", "cached_property"}
 
 
@@ -379,6 +592,8 @@ def run_rules(mod, project, tier="quick", result=None, generic=True):
             generic_memo_rule(mod.PROP, project, result)
             generic_forward_rule(mod.PROP, project, result)
             generic_state_rule(mod.PROP, project, result)
+            generic_alias_rules(mod.PROP, project, result)
+            generic_control_rules(mod.PROP, project, result)
         except Exception as e:
             result.error("generic rules: internal error %s: %s" % (type(e).__name__, e))
     anchor_filter(mod.PROP, result)
